@@ -9,7 +9,10 @@ confirm)
   export CARGO_TARGET_DIR="$wt/target" CARGO_NET_OFFLINE=true
   cd "$wt" || exit 2
   echo "== suite with the change"
+  cargo clean -p tests_common --offline >/dev/null 2>&1
   cargo test --workspace --no-fail-fast --offline 2>&1 | grep -E '^test result|FAILED|^error' | sort | uniq -c | grep -v ' 0 passed'
+  # the demo gets its own target dir: it may resolve other dependency versions than the workspace
+  export CARGO_TARGET_DIR="$wt/target_demo"
   echo "== demo WITH the change"
   ( eval "$*" ) > "$wt/SEED/demo_with.log" 2>&1; echo "exit=$?"; tail -5 "$wt/SEED/demo_with.log"
   echo "== demo WITHOUT the change"
@@ -31,6 +34,6 @@ detect)
     echo "$out" | grep -E 'key:' | head -3 | cut -c1-400
     echo "$out" | grep -E '^\[' | cut -c1-200
   done
-  git -C /repo checkout -- . ; git -C /repo reset -q ; git -C /repo status --short | head -3
+  git -C /repo reset -q --hard HEAD ; git -C /repo status --short | head -3
   ;;
 esac
